@@ -33,7 +33,9 @@ WANTED = [("sbdfstring.c", "sbdf_convert_utf8_to_iso88591"), ("sbdfstring.c", "s
           ("internals.c", "sbdf_read_int32"), ("internals.c", "sbdf_write_int32"),
           ("internals.c", "sbdf_skip_string"), ("internals.c", "sbdf_calculate_array_capacity"),
           # strings as the library stores them (an int length header in front of the bytes) and their writer
-          ("internals.c", "sbdf_get_array_length"), ("sbdfstring.c", "sbdf_str_len"), ("internals.c", "sbdf_write_string")]
+          ("internals.c", "sbdf_get_array_length"), ("sbdfstring.c", "sbdf_str_len"), ("internals.c", "sbdf_write_string"),
+          # the comparison helpers (memcmp on the common prefix, then the lengths)
+          ("sbdfstring.c", "sbdf_str_cmp"), ("bytearray.c", "sbdf_ba_get_len"), ("bytearray.c", "sbdf_ba_memcmp")]
 CALLABLE = set(w[1] for w in WANTED if len(w) == 2) | {"sbdf_swap"}
 
 
@@ -215,6 +217,16 @@ def expr(n, scope):
             if cname == "fread":
                 f.w.add(v); return '(EReadByte "%s")' % v, f
             f.r.add(v); return '(EWriteByte (EVar "%s"))' % v, f
+        if cname == "memcmp" and len(n["inner"]) == 4:
+            ps = []
+            fj = Fx()
+            for a in n["inner"][1:3]:
+                u = strip_casts(a)
+                if not (u.get("kind") == "DeclRefExpr" and is_charptr(qt(u))): raise Untranslatable("memcmp on something that is not a char pointer variable")
+                e_, f_ = expr(a, scope); ps.append(e_); fj = fx_join(fj, f_)
+            cnt, fc = expr(n["inner"][3], scope)
+            if fc.w or fc.io: raise Untranslatable("memcmp count with side effects")
+            return "(EMemcmp %s %s %s)" % (ps[0], ps[1], cnt), fx_join(fj, fc)
         if cname == "fseek" and len(n["inner"]) == 4:
             a0, a1, a2 = [strip_casts(x) for x in n["inner"][1:]]
             whence = a2.get("kind") == "IntegerLiteral" and int(a2["value"]) == 1          # SEEK_CUR
